@@ -497,6 +497,26 @@ func init() {
 		for c := 0; o.Cases < n && unanswered < 3; c++ {
 			q := genRequest(r, ReqOpts{MaxBiases: 2, Biases: []string{"criteriaOmission", "preferenceReversal", "fatigue", "anchoring"},
 				Methods: []string{"weightedSum", "owa", "choquetIntegral", "electreIII", "majorityHeuristic", "aspectEliminationHeuristic", "satisfactionHeuristic"}})
+			if r.chance(0.06) {
+				// degenerate range: every known alternative has the same value on a criterion without a declared range,
+				// and a bias that rescales by value ranges fires
+				cid := q.Problem.Criteria[r.Intn(len(q.Problem.Criteria))].Id
+				v := float64(r.Intn(7))
+				for _, a := range q.Body["knownAlternatives"].([]interface{}) {
+					a.(J)["criteria"].(J)[cid] = v
+				}
+				for _, cj := range q.Body["criteria"].([]interface{}) {
+					if cj.(J)["id"] == cid {
+						delete(cj.(J), "valuesRange")
+					}
+				}
+				lin := J{"function": "linear", "params": J{"a": 1, "b": 0.25}}
+				q.Body["biases"] = []interface{}{J{"name": "anchoring", "props": J{
+					"anchoringAlternatives": []interface{}{J{"alternative": q.Problem.Known[0].Id, "coefficient": 1}},
+					"loss":                  lin, "gain": lin, "referencePoints": J{"function": []string{"ideal", "nadir"}[r.Intn(2)]},
+					"applier": J{"function": "inline", "params": J{}}}}}
+				o.count("degenerate-range+anchoring")
+			}
 			if q.Method == "choquetIntegral" || q.Method == "owa" {
 				// criterion-adding biases always fail for these two methods (registered C07 findings): keep the base valid
 				var kept []interface{}
